@@ -451,6 +451,8 @@ inductive Plan where
   | order (ks : List OrdKey) (p : Plan)
   | limit (n : Option Nat) (m : Nat) (p : Plan)
   | topn (n : Option Nat) (m : Nat) (ks : List OrdKey) (p : Plan)
+  /-- `(empty child)`: what `filter false` is rewritten to; returns no rows -/
+  | empty (p : Plan)
   deriving Repr
 
 structure TableMeta where
@@ -473,6 +475,7 @@ def analyzeOrder (t : TableMeta) : Plan → List OrdKey
   | .proj _ p => analyzeOrder t p
   | .filter _ p => analyzeOrder t p
   | .limit _ _ p => analyzeOrder t p
+  | .empty _ => []
 
 /-- `is_orderby(keys, plan)`: the plan's order key list starts with `keys`. -/
 def isOrderBy (t : TableMeta) (ks : List OrdKey) (p : Plan) : Bool :=
@@ -486,6 +489,7 @@ def outCols : Plan → List Nat
   | .order _ p => outCols p
   | .limit _ _ p => outCols p
   | .topn _ _ _ p => outCols p
+  | .empty p => outCols p
 
 /-- What the executors compute.  Rows stay table-width (columns are referred to by identity);
 `outCols` is applied at the end. -/
@@ -496,6 +500,7 @@ def execPlan (lay : List RowSet) : Plan → Out (List Row)
   | .order ks p => (execPlan lay p).map fun rows => sortL (keyCmp ks) rows
   | .limit n m p => (execPlan lay p).map fun rows => limitExec n m [rows]
   | .topn n m ks p => (execPlan lay p).bind fun rows => topnExec (keyCmp ks) n m rows
+  | .empty _ => .ok []
 
 /-- What the query means: scans return the table's visible rows (as a bag; the order is the
 concatenation order), a scan filter is a plain predicate, ORDER BY sorts, LIMIT/OFFSET slice. -/
@@ -508,6 +513,7 @@ def specPlan (lay : List RowSet) : Plan → List Row
   | .order ks p => sortL (keyCmp ks) (specPlan lay p)
   | .limit n m p => limitRows n m (specPlan lay p)
   | .topn n m ks p => limitRows n m (sortL (keyCmp ks) (specPlan lay p))
+  | .empty _ => []
 
 /-- keys of the outermost sort of a plan (what the result order is defined by) -/
 def sortKeysOf : Plan → List OrdKey
@@ -517,6 +523,7 @@ def sortKeysOf : Plan → List OrdKey
   | .filter _ p => sortKeysOf p
   | .proj _ p => sortKeysOf p
   | .limit _ _ p => sortKeysOf p
+  | .empty _ => []
 
 def hasLimit : Plan → Bool
   | .scan _ _ => false
@@ -525,6 +532,7 @@ def hasLimit : Plan → Bool
   | .filter _ p => hasLimit p
   | .proj _ p => hasLimit p
   | .limit n m p => (n.isSome || m != 0) || hasLimit p
+  | .empty _ => false
 
 def Plan.supported : Plan → Bool
   | .scan _ f => f.supported
@@ -533,6 +541,7 @@ def Plan.supported : Plan → Bool
   | .order _ p => p.supported
   | .limit _ _ p => p.supported
   | .topn _ _ _ p => p.supported
+  | .empty p => p.supported
 
 /-- the scan leaf -/
 def scanOf : Plan → List Nat × Expr
@@ -542,6 +551,7 @@ def scanOf : Plan → List Nat × Expr
   | .order _ p => scanOf p
   | .limit _ _ p => scanOf p
   | .topn _ _ _ p => scanOf p
+  | .empty _ => ([], .const (.bool true))
 
 def hasSort : Plan → Bool
   | .scan _ _ => false
@@ -550,6 +560,7 @@ def hasSort : Plan → Bool
   | .filter _ p => hasSort p
   | .proj _ p => hasSort p
   | .limit _ _ p => hasSort p
+  | .empty _ => true
 
 def topnAbsentLimit : Plan → Bool
   | .scan _ _ => false
@@ -558,5 +569,6 @@ def topnAbsentLimit : Plan → Bool
   | .filter _ p => topnAbsentLimit p
   | .proj _ p => topnAbsentLimit p
   | .limit _ _ p => topnAbsentLimit p
+  | .empty _ => false
 
 end RlModel
